@@ -419,7 +419,7 @@ def compare(exp, got):
                             "bond (%d,%d): expected order %r, got %r" % (i, j, et[(i, j)][1], o)))
                 break
     else:
-        if sorted(map(_canon, exp["bonds"])) != sorted(map(_canon, got["bonds"])) and not any(
+        if sorted(map(_canon, exp["bonds"]), key=repr) != sorted(map(_canon, got["bonds"]), key=repr) and not any(
                 ANY in b for b in exp["bonds"]):
             out.append(("bonds", "typed-multiset", "bond multiset differs"))
     return out
